@@ -7,7 +7,7 @@ Program recipe (plain JSON)
      "roots": [{"kind": "arg"|"alloc"|"glob"|"globu"|"const", "big": 0|1, "seed": int, "space": "L1"|"L3"}],
      "layouts": [{"split": [inner tile per dim], "perm": int, "gap": 0|1}],      pool of target layouts of the operand shape
      "epochs": [{"paths": [path per root], "stmts": [stmt]}],
-     "ret": [root ref], "vis": "public"|"none", "a2g": 0|1, "dead": 0|1,
+     "ret": [root ref], "vis": "public"|"none", "a2g": 0|1, "dead": 0|1, "plain": 0|1,
      "trips": [[trip count per loop], [..]]}
     path = {"sv": tile number 0..3 | "iv", "casts": [["ms", "L1"|"L3"] | ["lc", layout number | -1]], "def": "top"|"epoch"|"stmt"}
     stmt = ["op", kind, [input root refs], [output root refs]] | ["for", [stmt]]
@@ -212,7 +212,7 @@ def program(draw, tier="quick", mode=None):
     ret = draw(st.lists(st.integers(0, nroots - 1), max_size=2))
     return dict(mode=mode, elt=elt, shape=shape, roots=roots, layouts=layouts, epochs=epochs, ret=ret,
                 vis=draw(st.sampled_from(["public", "none"])), a2g=draw(st.sampled_from([0, 0, 1])) if not explicit else 0,
-                dead=draw(st.sampled_from([0, 0, 0, 1])), trips=trips)
+                dead=draw(st.sampled_from([0, 0, 0, 1])), plain=draw(st.sampled_from([0, 0, 0, 0, 0, 1])), trips=trips)
 
 
 # ------------------------------------------------------------------------------------------------------------------
@@ -297,11 +297,29 @@ def build(r) -> Built:
     loop_args: list[str] = []
     use_count: dict[str, list] = {}  # cast value -> [readers, writers]
 
+    # A root that is used without any cast by a linalg.generic / dart.operation gets ONE shared L1 cast from
+    # set-memory-space, whatever lies between the users. To keep "one access path at a time", a root that is reached through
+    # explicit casts somewhere is never used as the bare root value elsewhere: those epochs go through a full-size subview.
+    needs_fresh = [False] * nroots
+    if explicit:
+        for ep in r["epochs"]:
+            for i in range(nroots):
+                if ep["paths"][i % len(ep["paths"])].get("casts"):
+                    needs_fresh[i] = True
+
     def emit_path(i, path, out, pad, iv):
-        """Emit subview + casts of root i; returns (ssa, type text)."""
+        """Emit subview + casts of root i; returns (ssa, type text, number of casts, memory space)."""
         nm, rshape, sp = root_val[i]
         layout = None
         cur = nm
+        if not roots[i].get("big") and needs_fresh[i] and not path.get("casts"):
+            strides_txt = ", ".join(str(math.prod(rshape[d + 1:])) for d in range(rank))
+            layout = f"strided<[{strides_txt}], offset: 0>"
+            new = fresh("s")
+            out.append(f'{pad}{new} = "memref.subview"({cur}) <{{operandSegmentSizes = array<i32: 1, 0, 0, 0>, static_offsets = array<i64: {", ".join(["0"] * rank)}>, '
+                       f'static_sizes = array<i64: {", ".join(map(str, shape))}>, static_strides = array<i64: {", ".join(["1"] * rank)}>}}> : ({mtype(rshape, elt, None, sp)}) -> {mtype(shape, elt, layout, sp)}')
+            b.features.add("subview:full")
+            cur = new
         if roots[i].get("big"):
             sv = path.get("sv", 0)
             row_stride = math.prod(shape[1:]) if rank > 1 else 1
@@ -348,7 +366,7 @@ def build(r) -> Built:
                 cur, cur_t, layout, sp = new, new_t, nl, nsp
                 nc += 1
                 b.features.add("cast:" + c[0])
-        return cur, cur_t, nc
+        return cur, cur_t, nc, sp
 
     def used_roots(stmts):
         s = set()
@@ -361,8 +379,15 @@ def build(r) -> Built:
 
     def emit_op(s, vals, out, pad, in_loop):
         _, kind, ins, outs = s
-        iv_ = [vals[v % nroots] for v in ins]
-        ov_ = [vals[v % nroots] for v in outs]
+        iv_ = [vals[v % nroots][:3] for v in ins]
+        ov_ = [vals[v % nroots][:3] for v in outs]
+        if any(vals[v % nroots][3] != "L1" for v in ins + outs):
+            # set-memory-space gives linalg.generic / dart.operation operands an L1 cast and leaves other ops alone. To keep ONE
+            # access path per buffer, all ops that consume a value outside L1 are of one class per program (recipe.plain).
+            if r.get("plain"):
+                kind = {"linalg": "test", "linalg_lib": "test", "dart_op": "dart_sched"}.get(kind, kind)
+            else:
+                kind = {"test": "linalg", "dart_sched": "dart_op"}.get(kind, kind)
         tag = b.ntags
         b.ntags += 1
         for v, _, nc in iv_:
